@@ -122,6 +122,95 @@ def ctor_info(f):
     return show(X), rec, sorted(stored), fields
 
 
+def escaped_objects(f):
+    """{record name: members stored on every path} for the structs a function allocates (malloc/calloc) and hands on by storing the
+    pointer somewhere that outlives the call (an array slot, *out, a member of another object) rather than by returning it.  The
+    members are those stored on every path to a return on which the object is still alive (not released) and has been handed on."""
+    u = f.unit
+    objs = {}
+    for e in f.all_elems():
+        if e.is_assign and e.op == "=" and norm(e.kid(0))[0] == "v":
+            r = e.kid(1).strip() if e.kid(1) is not None else None
+            if r is not None and r.cls == "CallExpr" and r.callee in ("malloc", "calloc"):
+                t = u.types.get(e.kid(0).ty) or {}
+                pt = u.types.get(t.get("pointee", "")) or {}
+                if pt.get("kind") in ("struct", "record") and pt.get("record"):
+                    objs[norm(e.kid(0))] = (pt["record"], r.callee == "calloc")
+    out = {}
+    returned = set(norm(r.kid(0)) for r in f.returns() if r.kids and r.kid(0) is not None)
+    for X, (rec, zeroed) in objs.items():
+        if X in returned:
+            continue
+        fields = [m["name"] for m in (u.records.get(rec) or {}).get("fields", [])]
+        if not fields:
+            continue
+
+        def member(n):
+            while n[0] in (".", "[]") and not (n[0] == "." and n[1] == ("*", X)):
+                n = n[1]
+            return n[2] if (n[0] == "." and n[1] == ("*", X)) else None
+
+        def tr(st, e, X=X, fields=fields, zeroed=zeroed):
+            got, esc, dead = st
+            if e.is_assign:
+                lhs = norm(e.kid(0))
+                if lhs == X:
+                    return (frozenset(fields) if zeroed else frozenset(), False, False)
+                m = member(lhs)
+                if m is not None:
+                    return (got | frozenset([m]), esc, dead)
+                rhs = norm(e.kid(1)) if e.kid(1) is not None else None
+                while rhs is not None and rhs[0] == "cast":
+                    rhs = rhs[-1]
+                if e.op == "=" and rhs == X and not (lhs[0] == "v" and len(lhs) > 2 and lhs[0] == "v" and _is_local(f, lhs)):
+                    return (got, True, dead)
+                return st
+            if e.cls == "CallExpr":
+                for a in e.args:
+                    if a is None:
+                        continue
+                    n = norm(a)
+                    while n[0] == "cast":
+                        n = n[-1]
+                    if n == X:
+                        if e.callee in ("memset", "memcpy"):
+                            got = got | frozenset(fields)
+                        elif e.callee and (e.callee == "free" or own.GENERIC_RELEASERS.search(e.callee)):
+                            dead = True
+                    m = member(n[1]) if n[0] == "&" else (member(n) if n[0] in (".", "[]") else None)
+                    if m is not None and (n[0] == "&" or (u.types.get(a.ty) or {}).get("kind") in ("array", "ptr")):
+                        if n[0] == "&" or (u.types.get(a.ty) or {}).get("kind") == "array":
+                            got = got | frozenset([m])       # handed to a callee to fill in
+                return (got, esc, dead)
+            return st
+
+        def join(a, b):
+            return (a[0] & b[0], a[1] or b[1], a[2] and b[2])
+        sv = Solver(f, (frozenset(fields), False, True), tr, None, join).run()
+        stored = None
+        for r in f.returns():
+            st = sv.state_before(r)
+            if st is None or st[2] or not st[1]:
+                continue
+            stored = st[0] if stored is None else (stored & st[0])
+        if stored is not None:
+            out[rec] = sorted(stored)
+    return out
+
+
+def _is_local(f, t):
+    ids = getattr(f, "_local_ids", None)
+    if ids is None:
+        ids = set(p["id"] for p in f.params)
+        for e in f.all_elems():
+            if e.cls == "DeclStmt":
+                for d in e.decls or []:
+                    if isinstance(d, dict) and d.get("kind") == "local" and not d.get("static"):
+                        ids.add(d["id"])
+        f._local_ids = ids
+    return len(t) > 2 and t[2] in ids
+
+
 def dtor_info(f, rel):
     """(releases made on every path for a non-NULL argument: member names and 'self') for a function named like a destructor
     whose first parameter is a pointer to a struct; None otherwise."""
@@ -343,7 +432,7 @@ def apply(rep, pid, files, tier):
                           "meant to set keeps its old value)" % ", ".join(gone), function=f.name, construct="param-unused:" + ",".join(gone))
             # CTOR
             want = (ref_ct.get(f.file) or {}).get(key)
-            if want is not None:
+            if want is not None and "record" in want:
                 ci = ctor_info(f)
                 if ci is not None and ci[1] == want["record"]:
                     n += 1
@@ -351,6 +440,18 @@ def apply(rep, pid, files, tier):
                     rep.check(not missing, "CTOR", "%s stores every member of the %s it returns that the reference constructor stores" % (f.name, want["record"]), f.loc,
                               "not stored on every path to the success return: %s (the object comes from malloc: what is there is whatever the allocator left)" % ", ".join(missing),
                               function=f.name, construct="ctor-init:" + ",".join(missing))
+            # CTOR, for objects handed on by a store instead of a return
+            want = ((ref_ct.get(f.file) or {}).get(key) or {}).get("escaped") if isinstance((ref_ct.get(f.file) or {}).get(key), dict) else None
+            if want:
+                got = escaped_objects(f)
+                for recname, members in want.items():
+                    if recname not in got:
+                        continue
+                    n += 1
+                    missing = [m for m in members if m not in got[recname]]
+                    rep.check(not missing, "CTOR", "%s stores every member of the %s it hands on that the reference tree stores" % (f.name, recname), f.loc,
+                              "not stored on every path on which the object is handed on: %s (the object comes from malloc: what is there is whatever the allocator left)"
+                              % ", ".join(missing), function=f.name, construct="ctor-init:" + ",".join(missing))
             # DTOR
             want = (ref_dt.get(f.file) or {}).get(key)
             if want is not None:
